@@ -296,9 +296,12 @@ def _strip_ctx(node):
 class Values:
     """value graph of one function"""
 
-    def __init__(self, ix, f, abstract=None, dag=None):
+    def __init__(self, ix, f, abstract=None, dag=None, strip=True):
+        """strip=False keeps conversion calls (`np.asanyarray(x)`, `np.array(x)`, `float(x)`) in the values: for rules
+        about whether a stored object is the caller's or a copy"""
         self.ix = ix
         self.f = f
+        self.strip = strip
         self.pv = Prov(ix, f, ssa=True)
         self.abstract = dict(abstract or {})
         self.dag = dag or Dag()
@@ -413,7 +416,7 @@ class Values:
     def value(self, expr, at_stmt):
         """node of an expression evaluated at statement at_stmt"""
         e = self._subst(copy.deepcopy(expr), at_stmt)
-        e = self.pv._finish_ast(e) if hasattr(self.pv, "_finish_ast") else e
+        e = self.pv._finish_ast(e, self.strip) if hasattr(self.pv, "_finish_ast") else e
         if self.abstract:
             ab = self.abstract
 
